@@ -26,6 +26,8 @@ pub struct RunStats {
     pub orders_compared: u32,
     pub healthy_ratio_num: u64,
     pub healthy_ratio_den: u64,
+    pub stub_validated: bool,
+    pub stub_disagreement: Option<String>,
 }
 
 pub struct Exec {
@@ -55,6 +57,9 @@ pub fn execute(
 ) -> Result<Exec, String> {
     let backend = scn.backend;
     let opts = scn.opts.clone();
+    if backend == Backend::RealFs {
+        return execute_real(&opts, &entries, walk_seed, hash_seed, rerun);
+    }
     exec::on_carrier(hash_seed, move || {
         let store = Store::new(backend, walk_seed, &entries);
         let before = store.snapshot();
@@ -91,6 +96,38 @@ pub fn execute(
             probes,
             rerun,
         }
+    })
+}
+
+/// Tier B: the same invocation through the real binary on a tmpfs scratch directory.
+fn execute_real(
+    opts: &crate::model::OptSpec,
+    entries: &[FsEntry],
+    walk_seed: u64,
+    hash_seed: u64,
+    rerun: bool,
+) -> Result<Exec, String> {
+    use crate::tierb;
+    let args = tierb::cli_args(opts).ok_or("scenario cannot be expressed on the command line")?;
+    let scratch = tierb::Scratch::new()?;
+    tierb::materialize(&scratch.root, entries, walk_seed)?;
+    let before = tierb::snapshot(&scratch.root);
+    let first = tierb::run_binary(&scratch.root, &args, hash_seed)?;
+    let after = tierb::snapshot(&scratch.root);
+    let rerun = if rerun {
+        let second = tierb::run_binary(&scratch.root, &args, hash_seed)?;
+        Some((second.outcome, tierb::snapshot(&scratch.root), Vec::new()))
+    } else {
+        None
+    };
+    Ok(Exec {
+        outcome: first.outcome,
+        before,
+        after,
+        log: Vec::new(),
+        fired: Vec::new(),
+        probes: BTreeMap::new(),
+        rerun,
     })
 }
 
@@ -197,7 +234,7 @@ fn unwritable_sources(scn: &C11Scenario, lay: &Layout) -> Vec<String> {
         let dir_at = scn
             .entries
             .iter()
-            .any(|e| e.path == *m && e.body == Body::Dir);
+            .any(|e| e.path == *m && matches!(e.body, Body::Dir | Body::Symlink(_)));
         let mut file_above = false;
         let mut p = gen::parent(m);
         while !p.is_empty() {
@@ -318,6 +355,36 @@ pub fn check(scn: &C11Scenario, stats: &mut RunStats) -> Result<Vec<Violation>, 
             format!("darklua panicked: {}", msg),
         ));
         return Ok(violations);
+    }
+    stats.stub_validated = false;
+    if scn.backend == Backend::RealFs
+        && !scn.entries.iter().any(|e| matches!(e.body, Body::Symlink(_)))
+    {
+        // validate the SimFs stub against the real arm on the same scenario
+        let mut sim_scn = scn.clone();
+        sim_scn.backend = Backend::SimFs;
+        let s = execute(
+            &sim_scn,
+            scn.entries.clone(),
+            Vec::new(),
+            scn.walk_seed,
+            scn.hash_seed,
+            false,
+        )?;
+        stats.executions += 1;
+        if s.after != a.after || s.outcome.errors() != a.outcome.errors() {
+            let (ad, ch, rm) = diff_paths(&a.after, &s.after);
+            stats.stub_disagreement = Some(format!(
+                "SimFs and the real file system disagree: only-in-sim {:?} differing {:?} only-in-real {:?}; real {} / sim {}",
+                ad,
+                ch,
+                rm,
+                a.outcome.brief(),
+                s.outcome.brief()
+            ));
+        } else {
+            stats.stub_validated = true;
+        }
     }
 
     // --- reference: the bad files are absent, no injected faults, canonical order
@@ -854,11 +921,15 @@ pub fn generate(seed: u64) -> C11Scenario {
     let mut ro = Rng::stream(seed, "orders");
     let mut rk = Rng::stream(seed, "knobs");
 
-    let backend = if rk.chance(1, 6) {
+    let backend = if crate::tierb::available() && rk.chance(1, 8) {
+        Backend::RealFs
+    } else if rk.chance(1, 6) {
         Backend::Memory
     } else {
         Backend::SimFs
     };
+    let real = backend == Backend::RealFs;
+    let minify = real && rk.chance(1, 4);
     let knobs = ProjectKnobs {
         max_sources: 8,
         allow_file_input: true,
@@ -866,11 +937,30 @@ pub fn generate(seed: u64) -> C11Scenario {
         memory_safe: backend == Backend::Memory,
     };
     let mut project = gen::gen_project(&mut rp, &knobs);
+    if minify {
+        project.bundle = None;
+        for s in project.sources.iter_mut() {
+            s.requires.clear();
+        }
+        project.data.clear();
+    }
     let parts = gen::gen_config_parts(&mut rc, project.bundle.as_deref());
     let config_text = parts.to_text();
-    let invocation = gen::gen_invocation(&mut rk, &project, &config_text, true, true, backend);
+    let mut invocation =
+        gen::gen_invocation(&mut rk, &project, &config_text, true, !real, backend);
+    if minify {
+        let span = *rk.pick(&[80usize, 20, 1, 120]);
+        invocation.opts.config = crate::model::ConfigSource::Object(format!(
+            "{{\"rules\":[],\"generator\":{{\"name\":\"dense\",\"column_span\":{}}}}}",
+            span
+        ));
+        invocation.opts.generator_override = None;
+        invocation
+            .extra_entries
+            .retain(|e| !e.path.starts_with(".darklua") && !e.path.contains("config") && !e.path.starts_with("cfg/"));
+    }
     let mut opts = invocation.opts;
-    opts.fail_fast = rk.chance(1, 5);
+    opts.fail_fast = !real && rk.chance(1, 5);
     if opts.output.is_none() && project.bundle.is_some() {
         // bundling in place reads sibling inputs that the same run overwrites: the
         // inputs are then not a fixed snapshot and order legitimately matters
@@ -932,7 +1022,14 @@ pub fn generate(seed: u64) -> C11Scenario {
                 }
                 continue;
             }
-            match rf.below(if sim { 10 } else { 4 }) {
+            let pick = if real {
+                *rf.pick(&[0usize, 1, 2, 3, 4, 8, 9, 10, 10])
+            } else if sim {
+                rf.below(10)
+            } else {
+                rf.below(4)
+            };
+            match pick {
                 0 | 1 => {
                     let body = rf.pick(corpus::SYNTAX_ERRORS).replace("{M}", &format!("\"{}\"", marker));
                     overrides.push((victim_path.clone(), Body::Text(body)));
@@ -1016,6 +1113,16 @@ pub fn generate(seed: u64) -> C11Scenario {
                         extra.push(FsEntry {
                             path: format!("@mirror:{}", victim_path),
                             body: Body::Dir,
+                        });
+                    }
+                }
+                10 => {
+                    // the destination is a symbolic link to /dev/full: every byte written
+                    // fails with ENOSPC (real file system only)
+                    if expected.contains(&victim) && opts.output.is_some() {
+                        extra.push(FsEntry {
+                            path: format!("@mirror:{}", victim_path),
+                            body: Body::Symlink("/dev/full".to_owned()),
                         });
                     }
                 }
@@ -1105,6 +1212,17 @@ pub fn generate(seed: u64) -> C11Scenario {
             }
         }
     }
+    // a file entry cannot have entries below it: the blocker wins
+    let file_paths: Vec<String> = entries
+        .iter()
+        .filter(|e| e.body != Body::Dir)
+        .map(|e| e.path.clone())
+        .collect();
+    entries.retain(|e| {
+        !file_paths
+            .iter()
+            .any(|f| e.path.starts_with(&format!("{}/", f)))
+    });
     // the blockers may have changed the layout (an output that now is a directory)
     scn.entries = entries.clone();
     let lay = layout(&scn, &entries);
@@ -1328,6 +1446,14 @@ impl Property for C11 {
         }
         if scn.opts.output.is_none() {
             counters.insert("runs_in_place".to_owned(), 1);
+        }
+        if stats.stub_validated {
+            counters.insert("stub_validated_against_real_fs".to_owned(), 1);
+        }
+        if let Some(msg) = &stats.stub_disagreement {
+            if violations.is_empty() {
+                return Err(format!("stub validation: {} (run seed {})", msg, run_seed));
+            }
         }
         Ok(RunReport {
             stats: json!({
